@@ -1,7 +1,10 @@
 //! C12 — Streaming persistence is crash-consistent at every step, loses nothing confirmed.
 //!
-//! Per generated workload of push / flush / compact / (re)open on `StreamingPersistence` +
-//! `Compactor` over a `TraceObjectStore` (store.rs):
+//! Per generated workload of push / flush / flush-if-due / compact / compact-if-needed /
+//! checkpoint / (re)open on `StreamingPersistence` + `Compactor` + `CheckpointManager` over a
+//! `TraceObjectStore` (store.rs); tombstone TTL and compactor clock are generated so that every
+//! branch of `compact()` (nothing to compact, nothing remains, merged, skipped large segments,
+//! checkpoint present, single segment …) is reached and labelled:
 //!
 //!   1. the fault-free run fixes the sequence of store calls;
 //!   2. EVERY crash position is examined: the store image after each call, and inside each put
@@ -21,11 +24,13 @@ mod store;
 
 use model::*;
 use proptest::prelude::*;
-use redis_sim::replication::state::ReplicationDelta;
+use redis_sim::replication::state::{ReplicatedValue, ReplicationDelta};
 use redis_sim::streaming::{
-    CompactionConfig, Compactor, ManifestManager, SegmentReader, SimulatedClock, StreamingPersistence,
+    CheckpointConfig, CheckpointInfo, CheckpointManager, CompactionConfig, CompactionError,
+    CompactionResult, Compactor, ManifestManager, SegmentReader, SimulatedClock, StreamingPersistence,
     WriteBuffer, WriteBufferConfig,
 };
+use std::collections::{BTreeSet, HashMap};
 use serde::{Deserialize, Serialize};
 use serde_json::json;
 use std::sync::Arc;
@@ -39,6 +44,14 @@ enum Op {
     Push(DeltaSpec),
     Flush,
     Compact,
+    /// `Compactor::compact_if_needed()` (threshold `max_segments`)
+    CompactIfNeeded,
+    /// `if should_flush() { flush() }` (count threshold `max_deltas`)
+    FlushIfDue,
+    /// the documented checkpoint flow: `CheckpointManager::create_checkpoint(state, last id)`,
+    /// `Manifest::compact_segments`, `ManifestManager::save`; the state snapshot is what a node
+    /// that recovered from the current store would hold
+    Checkpoint,
     /// process restart without a flush: the buffer is legitimately gone, a new
     /// `StreamingPersistence` is opened on the same store
     Reopen,
@@ -51,14 +64,49 @@ struct Workload {
     max_seg: u8,
     /// target_segment_size = 300 bytes (bigger segments are skipped by compaction) or 1 MiB
     small_target: bool,
+    /// compactor / checkpoint clock
+    clock: Clock,
+    /// tombstone_ttl in ms (0, small, huge)
+    ttl_ms: u64,
+    /// `CompactionConfig::max_segments` (threshold of compact_if_needed)
+    max_segments: u8,
+    /// `WriteBufferConfig::max_deltas` (threshold of should_flush)
+    max_deltas: u8,
+    /// backpressure threshold of 140 estimated bytes (two buffered updates) instead of 16 MiB
+    small_backpressure: bool,
 }
 
-fn wb_config() -> WriteBufferConfig {
+const EPOCH_MS: u64 = 1_790_000_000_000;
+
+#[derive(Clone, Copy, Debug, Serialize, Deserialize)]
+enum Clock {
+    /// now = EPOCH_MS + offset, as ProductionTimeSource yields; stamps remain logical counters
+    Production(u32),
+    /// now = the value (the in-tree tests' regime, stamps read as ms)
+    Simulated(u32),
+}
+
+impl Clock {
+    fn now(&self) -> u64 {
+        match self {
+            Clock::Production(o) => EPOCH_MS + *o as u64,
+            Clock::Simulated(n) => *n as u64,
+        }
+    }
+}
+
+impl Workload {
+    fn cutoff(&self) -> u64 {
+        self.clock.now().saturating_sub(self.ttl_ms)
+    }
+}
+
+fn wb_config(w: &Workload) -> WriteBufferConfig {
     WriteBufferConfig {
         flush_interval: Duration::from_secs(3600),
         max_size_bytes: 1 << 20,
-        max_deltas: 100_000,
-        backpressure_threshold_bytes: 1 << 24,
+        max_deltas: w.max_deltas.max(1) as usize,
+        backpressure_threshold_bytes: if w.small_backpressure { 140 } else { 1 << 24 },
         compression_enabled: false,
     }
 }
@@ -66,24 +114,22 @@ fn wb_config() -> WriteBufferConfig {
 fn comp_config(w: &Workload) -> CompactionConfig {
     CompactionConfig {
         target_segment_size: if w.small_target { 300 } else { 1 << 20 },
-        max_segments: 2,
+        max_segments: w.max_segments.max(1) as usize,
         min_segments_to_compact: w.min_seg.max(1) as usize,
         max_segments_per_compaction: w.max_seg.max(w.min_seg).max(1) as usize,
-        // tombstone GC is C13's subject: here the compactor's clock stands at 0, so the cutoff
-        // is 0 and no tombstone is ever older than it
-        tombstone_ttl: Duration::from_secs(3600),
+        tombstone_ttl: Duration::from_millis(w.ttl_ms),
         compression_enabled: false,
     }
 }
 
 type Persistence = StreamingPersistence<TraceObjectStore, SimulatedClock>;
 
-fn open(store: &Arc<TraceObjectStore>) -> Result<Persistence, String> {
+fn open(store: &Arc<TraceObjectStore>, w: &Workload) -> Result<Persistence, String> {
     run_now(StreamingPersistence::with_clock(
         store.clone(),
         PREFIX.to_string(),
         REPLICA,
-        wb_config(),
+        wb_config(w),
         SimulatedClock::new(0),
     ))
     .map_err(|e| e.to_string())
@@ -107,8 +153,74 @@ struct CompactEv {
     ok: bool,
 }
 
+/// Which branch of compact() / compact_if_needed() an operation took (for the evidence labels).
+fn classify_compaction(
+    before: &Image,
+    w: &Workload,
+    res: &Result<CompactionResult, CompactionError>,
+    labels: &mut BTreeSet<String>,
+) {
+    let cfg = comp_config(w);
+    let m = read_manifest(before);
+    let n = m.as_ref().map(|m| m.segments.len()).unwrap_or(0);
+    let small = m
+        .as_ref()
+        .map(|m| {
+            m.segments
+                .iter()
+                .filter(|s| s.size_bytes < cfg.target_segment_size as u64)
+                .count()
+        })
+        .unwrap_or(0);
+    let mut l = |s: &str| {
+        labels.insert(format!("compact:{}", s));
+    };
+    if n == 0 {
+        l("empty_manifest");
+    }
+    if small < n {
+        l("large_segments_skipped");
+    }
+    let checkpoint = m.as_ref().map(|m| m.checkpoint.is_some()).unwrap_or(false);
+    if checkpoint {
+        l("checkpoint_present");
+    }
+    match res {
+        Err(CompactionError::NothingToCompact) => l("too_few_candidates"),
+        Err(_) => l("error"),
+        Ok(r) => {
+            if r.segment_created.is_some() {
+                l("merged");
+            } else if r.deltas_before == 0 {
+                l("only_missing_cleanup");
+            } else {
+                l("nothing_remains");
+                if checkpoint {
+                    l("nothing_remains+checkpoint");
+                }
+            }
+            if r.tombstones_removed > 0 {
+                l("tombstones_dropped");
+            }
+            if r.segments_removed.len() == 1 {
+                l("single_segment");
+            }
+            if r.segments_removed.len() < n {
+                l("some_segments_outside");
+            }
+            if small > cfg.max_segments_per_compaction {
+                l("cut_at_max_per_compaction");
+            }
+        }
+    }
+}
+
 struct RunOut {
     store: TraceObjectStore,
+    /// a compaction had already started in a previous incarnation of the process
+    pre_compaction: bool,
+    /// branch labels (evidence only)
+    labels: BTreeSet<String>,
     /// updates confirmed by a previous incarnation of the process (restart-after-crash runs)
     pre_confirmed: Vec<ReplicationDelta>,
     /// (global op index, number of store calls made before the op started)
@@ -125,7 +237,7 @@ struct RunOut {
 /// Execute the workload with the process alive throughout; `faults` are transient failures by
 /// global call index. A final flush (retried) closes the workload.
 fn run(ops: &[Op], w: &Workload, faults: &[(usize, Fault)]) -> RunOut {
-    run_from(Image::new(), ops, 0, Vec::new(), w, faults)
+    run_from(Image::new(), ops, 0, Vec::new(), false, w, faults)
 }
 
 /// The same on an existing store image: a new process started after a crash executes
@@ -136,6 +248,7 @@ fn run_from(
     ops: &[Op],
     op_offset: usize,
     pre_confirmed: Vec<ReplicationDelta>,
+    pre_compaction: bool,
     w: &Workload,
     faults: &[(usize, Fault)],
 ) -> RunOut {
@@ -144,6 +257,8 @@ fn run_from(
     let arc = Arc::new(store.clone());
     let mut out = RunOut {
         store: store.clone(),
+        pre_compaction,
+        labels: BTreeSet::new(),
         pre_confirmed,
         op_first_call: Vec::new(),
         deltas: Vec::new(),
@@ -154,7 +269,7 @@ fn run_from(
     };
     let reopen = |out: &mut RunOut| -> Option<Persistence> {
         for _ in 0..=faults.len() {
-            if let Ok(p) = open(&arc) {
+            if let Ok(p) = open(&arc, w) {
                 return Some(p);
             }
         }
@@ -165,6 +280,11 @@ fn run_from(
         ));
         None
     };
+    if read_manifest(&store.image()).is_some() {
+        out.labels.insert("open:existing_manifest".into());
+    } else {
+        out.labels.insert("open:no_manifest".into());
+    }
     let Some(mut p) = reopen(&mut out) else {
         return out;
     };
@@ -173,6 +293,19 @@ fn run_from(
 
     fn do_flush(p: &mut Persistence, pending: &mut Vec<usize>, out: &mut RunOut, op_idx: usize) {
         if pending.is_empty() && p.pending_count() == 0 {
+            // flush() on an empty buffer: Ok without touching the store
+            let before = out.store.call_count();
+            match run_now(p.flush()) {
+                Ok(r) if r.deltas_flushed == 0 && r.segment.is_none() && out.store.call_count() == before => {
+                    out.labels.insert("flush:empty_buffer".into());
+                }
+                other => out.anomalies.push(format!(
+                    "op #{} flush() on an empty buffer: {:?}, {} store calls",
+                    op_idx,
+                    other.map(|r| r.deltas_flushed).map_err(|e| e.to_string()),
+                    out.store.call_count() - before
+                )),
+            }
             return;
         }
         let r = run_now(p.flush());
@@ -236,30 +369,99 @@ fn run_from(
                         out.deltas.push(d);
                         pending.push(out.deltas.len() - 1);
                     }
-                    Err(e) => out.anomalies.push(format!("op #{} push refused: {}", op_idx, e)),
+                    Err(e) => {
+                        // not accepted: nothing is claimed for it
+                        if e.to_string().contains("Backpressure") && w.small_backpressure {
+                            out.labels.insert("push:refused_backpressure".into());
+                        } else {
+                            out.anomalies.push(format!("op #{} push refused: {}", op_idx, e));
+                        }
+                    }
                 }
             }
             Op::Flush => do_flush(&mut p, &mut pending, &mut out, op_idx),
-            Op::Compact => {
+            Op::Compact | Op::CompactIfNeeded => {
                 let mm = ManifestManager::new(store.clone(), PREFIX);
                 let mut c = Compactor::with_time_source(
                     arc.clone(),
                     PREFIX.to_string(),
                     mm,
                     comp_config(w),
-                    VerifTime::new(0),
+                    VerifTime::new(w.clock.now()),
                 );
                 let first_call = store.call_count();
-                let r = run_now(c.compact());
+                let before = store.image();
+                let r = if matches!(op, Op::Compact) {
+                    run_now(c.compact())
+                } else {
+                    match run_now(c.compact_if_needed()) {
+                        Ok(Some(r)) => {
+                            out.labels.insert("compact_if_needed:compacted".into());
+                            Ok(r)
+                        }
+                        Ok(None) => {
+                            out.labels.insert("compact_if_needed:none".into());
+                            Err(CompactionError::NothingToCompact)
+                        }
+                        Err(e) => Err(e),
+                    }
+                };
+                classify_compaction(&before, w, &r, &mut out.labels);
                 out.compacts.push(CompactEv {
                     first_call,
                     calls_at_return: store.call_count(),
                     ok: r.is_ok(),
                 });
             }
+            Op::FlushIfDue => {
+                if p.should_flush() {
+                    out.labels.insert("flush_if_due:due".into());
+                    do_flush(&mut p, &mut pending, &mut out, op_idx);
+                } else {
+                    out.labels.insert("flush_if_due:not_due".into());
+                }
+            }
+            Op::Checkpoint => {
+                // snapshot = what a node recovered from the current store holds (harness side,
+                // on a copy); it covers every segment the manifest lists
+                if let Ok(rec) = recover_image(&store.image()) {
+                    if let Some(last) = rec.manifest.segments.iter().map(|s| s.id).max() {
+                        let state: HashMap<String, ReplicatedValue> = rec.state.into_iter().collect();
+                        let mm = ManifestManager::new(store.clone(), PREFIX);
+                        let cm = CheckpointManager::with_time_source(
+                            arc.clone(),
+                            PREFIX.to_string(),
+                            mm.clone(),
+                            CheckpointConfig {
+                                interval: Duration::from_secs(3600),
+                                min_segments: 1,
+                                compression_enabled: false,
+                            },
+                            // one checkpoint object per op (production keys them by wall ms)
+                            VerifTime::new(w.clock.now() + 1 + op_idx as u64),
+                        );
+                        if let Ok(cr) = run_now(cm.create_checkpoint(state, last)) {
+                            if let Ok(mut m) = run_now(mm.load()) {
+                                m.compact_segments(CheckpointInfo {
+                                    key: cr.key,
+                                    timestamp_ms: cr.timestamp_ms,
+                                    key_count: cr.key_count,
+                                    last_segment_id: cr.last_segment_id,
+                                });
+                                if run_now(mm.save(&m)).is_ok() {
+                                    out.labels.insert("checkpoint:installed".into());
+                                }
+                            }
+                        }
+                    }
+                }
+            }
             Op::Reopen => {
                 drop(p);
                 pending.clear();
+                if read_manifest(&store.image()).is_some() {
+                    out.labels.insert("open:existing_manifest".into());
+                }
                 match reopen(&mut out) {
                     Some(np) => p = np,
                     None => return out,
@@ -322,32 +524,89 @@ fn trace_text(r: &RunOut) -> String {
     s
 }
 
-/// Which confirmed update is missing from `state`? (description of its flush, the update)
-fn missing_confirmed(r: &RunOut, calls_done: usize, state: &State) -> Option<(String, ReplicationDelta)> {
-    for d in &r.pre_confirmed {
-        if !contains(state, d) {
-            return Some(("a flush that returned Ok before the crash/restart".to_string(), d.clone()));
+/// Updates of flushes that had returned Ok when `calls_done` store calls were complete
+/// (None = confirmed by a previous incarnation of the process).
+fn confirmed_at(r: &RunOut, calls_done: usize) -> Vec<(Option<usize>, &ReplicationDelta)> {
+    let mut v: Vec<(Option<usize>, &ReplicationDelta)> = r.pre_confirmed.iter().map(|d| (None, d)).collect();
+    for (fi, f) in r.flushes.iter().enumerate() {
+        if f.ok && f.calls_at_return <= calls_done {
+            v.extend(f.batch.iter().map(|&di| (Some(fi), &r.deltas[di])));
         }
     }
-    for f in r.flushes.iter() {
-        if !f.ok || f.calls_at_return > calls_done {
-            continue;
+    v
+}
+
+fn describe_flush(r: &RunOut, fi: Option<usize>) -> String {
+    match fi {
+        None => "a flush that returned Ok before the crash/restart".to_string(),
+        Some(fi) => {
+            let f = &r.flushes[fi];
+            format!(
+                "the flush at op #{} (returned Ok after call #{}, segment {:?})",
+                f.op_idx,
+                f.calls_at_return.saturating_sub(1),
+                f.seg_key
+            )
         }
-        for &di in &f.batch {
-            if !contains(state, &r.deltas[di]) {
-                return Some((
-                    format!(
-                        "the flush at op #{} (returned Ok after call #{}, segment {:?})",
-                        f.op_idx,
-                        f.calls_at_return.saturating_sub(1),
-                        f.seg_key
-                    ),
-                    r.deltas[di].clone(),
-                ));
+    }
+}
+
+/// First confirmed update missing from `state` (probe helper).
+fn missing_confirmed(r: &RunOut, calls_done: usize, state: &State) -> Option<(String, ReplicationDelta)> {
+    confirmed_at(r, calls_done)
+        .into_iter()
+        .find(|(_, d)| !contains(state, d))
+        .map(|(fi, d)| (describe_flush(r, fi), d.clone()))
+}
+
+enum Gc {
+    /// legitimate garbage collection of an expired tombstone (and of what it had overwritten)
+    Accepted,
+    /// one of C13's open tombstone findings explains the loss
+    Finding(&'static str),
+}
+
+/// Tombstone garbage collection (C13's subject) as the explanation of a missing confirmed
+/// update `d`: a compaction had started before the crash position, and a confirmed LWW
+/// tombstone of the same key with a stamp >= d's (possibly d itself) is droppable by the
+/// implementation's rule `stamp.time < now_ms - ttl_ms`. What the recovered state shows for
+/// the key decides: production-like clock => the tombstone was younger than any TTL
+/// (KF-C13-02); simulated clock => accepted unless a client-visible value came back
+/// (KF-C13-03: an older value outside the compaction resurfaced).
+fn gc_explains(
+    r: &RunOut,
+    w: &Workload,
+    calls_done: usize,
+    d: &ReplicationDelta,
+    confirmed: &[(Option<usize>, &ReplicationDelta)],
+    state: &State,
+) -> Option<Gc> {
+    if d.value.lww().is_none() {
+        return None;
+    }
+    if !(r.pre_compaction || r.compacts.iter().any(|c| c.first_call < calls_done)) {
+        return None;
+    }
+    let cutoff = w.cutoff();
+    let covered = confirmed.iter().any(|(_, t)| {
+        t.key == d.key
+            && t.value.is_tombstone()
+            && t.value.timestamp.time < cutoff
+            && t.value.timestamp >= d.value.timestamp
+    });
+    if !covered {
+        return None;
+    }
+    Some(match w.clock {
+        Clock::Production(_) => Gc::Finding("KF-C13-02"),
+        Clock::Simulated(_) => {
+            if client(state.get(&d.key)) != client(None) {
+                Gc::Finding("KF-C13-03")
+            } else {
+                Gc::Accepted
             }
         }
-    }
-    None
+    })
 }
 
 /// KF-C12-02 matcher: an injected failing `get` of a segment object was issued by a compaction
@@ -381,6 +640,7 @@ fn matches_kf02(r: &RunOut, faults: &[(usize, Fault)], calls_done: usize, missin
 /// The oracle on one crash image. `calls_done` = number of store calls that completed.
 fn check_image(
     r: &RunOut,
+    w: &Workload,
     faults: &[(usize, Fault)],
     img: &Image,
     calls_done: usize,
@@ -399,18 +659,34 @@ fn check_image(
             ))
         }
     };
-    if let Some((which, d)) = missing_confirmed(r, calls_done, &rec.state) {
-        if matches_kf02(r, faults, calls_done, &d) && ctx.tolerate("KF-C12-02") {
-            return Ok(());
+    let confirmed = confirmed_at(r, calls_done);
+    for (fi, d) in &confirmed {
+        if contains(&rec.state, d) {
+            continue;
+        }
+        match gc_explains(r, w, calls_done, d, &confirmed, &rec.state) {
+            Some(Gc::Accepted) => {
+                ctx.label("tombstone_gc_accepted");
+                continue;
+            }
+            Some(Gc::Finding(id)) if ctx.tolerate(id) => continue,
+            _ => {}
+        }
+        if matches_kf02(r, faults, calls_done, d) && ctx.tolerate("KF-C12-02") {
+            continue;
         }
         return Err(format!(
-            "crash {}: recovery succeeds but update {} of {} is not in the recovered state (recovered value of the key: {})\n    injected failures: {:?}\n    manifest: {:?}\n    store calls:\n{}",
+            "crash {}: recovery succeeds but update {} of {} is not in the recovered state (recovered value of the key: {})\n    injected failures: {:?}\n    compactor clock {:?}, ttl {} ms => tombstone cutoff {}\n    manifest: segments {:?}, checkpoint {:?}\n    store calls:\n{}",
             what,
-            show_delta(&d),
-            which,
+            show_delta(d),
+            describe_flush(r, *fi),
             peer_opt(rec.state.get(&d.key)),
             faults,
+            w.clock,
+            w.ttl_ms,
+            w.cutoff(),
             rec.manifest.segments.iter().map(|s| s.id).collect::<Vec<_>>(),
+            rec.manifest.checkpoint.as_ref().map(|c| c.last_segment_id),
             trace_text(r)
         ));
     }
@@ -421,6 +697,7 @@ fn check_image(
 /// run this one is an extension of (identical prefix) and are skipped.
 fn check_run(
     r: &RunOut,
+    w: &Workload,
     faults: &[(usize, Fault)],
     from_call: usize,
     partial_puts: Option<bool>,
@@ -470,7 +747,7 @@ fn check_run(
     let n = calls.len();
     let mut images = 0u64;
     if from_call == 0 {
-        check_image(r, faults, &r.store.image_before(0), 0, "before the first call", ctx)?;
+        check_image(r, w, faults, &r.store.image_before(0), 0, "before the first call", ctx)?;
         images += 1;
     }
     for i in from_call..n {
@@ -480,6 +757,7 @@ fn check_run(
                 let img = r.store.image_inside_put(i, p).expect("put");
                 check_image(
                     r,
+                    w,
                     faults,
                     &img,
                     i,
@@ -491,6 +769,7 @@ fn check_run(
         }
         check_image(
             r,
+            w,
             faults,
             &r.store.image_after(i),
             i + 1,
@@ -509,7 +788,7 @@ fn check_run(
 fn prepare(w: &Workload, restrict: bool) -> (Vec<Op>, bool) {
     let mut ops = w.ops.clone();
     let original = ops.clone();
-    let compacts = ops.iter().any(|o| matches!(o, Op::Compact));
+    let compacts = ops.iter().any(|o| matches!(o, Op::Compact | Op::CompactIfNeeded));
     let restrict = restrict && compacts;
     if restrict {
         for o in ops.iter_mut() {
@@ -589,6 +868,15 @@ fn check_workload(w: &Workload, ctx: &mut CaseCtx<'_>) -> Result<(), String> {
     if ops.iter().any(|o| matches!(o, Op::Reopen)) {
         ctx.label("reopen");
     }
+    // which branches of compact() / flush() / open the fault-free run went through (every
+    // store call of those branches is then a crash and a failure position below)
+    for l in &base.labels {
+        ctx.label(l);
+    }
+    match w.clock {
+        Clock::Production(_) => ctx.label("clock:production"),
+        Clock::Simulated(_) => ctx.label("clock:simulated"),
+    }
     if ok_flushes >= 2 {
         // NT: with >= 2 successful flushes the enumeration below necessarily contains crash
         // and fault positions between a segment put and its manifest rename (and inside
@@ -601,7 +889,7 @@ fn check_workload(w: &Workload, ctx: &mut CaseCtx<'_>) -> Result<(), String> {
     }
 
     // 2. every crash position of the fault-free run
-    let mut evals = check_run(&base, &[], 0, Some(thorough), ctx)?;
+    let mut evals = check_run(&base, w, &[], 0, Some(thorough), ctx)?;
 
     // 2b. restart after the crash: a new process opens the crash image and executes the rest of
     //     the workload (orphan objects, a stale manifest.json.tmp and half-written objects are
@@ -629,8 +917,9 @@ fn check_workload(w: &Workload, ctx: &mut CaseCtx<'_>) -> Result<(), String> {
             images.push((base.store.image_inside_put(i, len / 2).expect("put"), i));
         }
         for (img, calls_done) in images {
-            let r = run_from(img, &ops[next_op..], next_op, confirmed_before(calls_done), w, &[]);
-            evals += 1 + check_run(&r, &[], 0, None, ctx).map_err(|e| {
+            let pre_compaction = base.compacts.iter().any(|c| c.first_call < calls_done);
+            let r = run_from(img, &ops[next_op..], next_op, confirmed_before(calls_done), pre_compaction, w, &[]);
+            evals += 1 + check_run(&r, w, &[], 0, None, ctx).map_err(|e| {
                 format!(
                     "after a crash {} call {} of the fault-free run and a restart that executes ops #{}..: {}",
                     if calls_done == i { "inside" } else { "after" },
@@ -648,14 +937,14 @@ fn check_workload(w: &Workload, ctx: &mut CaseCtx<'_>) -> Result<(), String> {
         for fault in fault_variants(calls[i].op) {
             let faults = [(i, fault)];
             let r = run(&ops, w, &faults);
-            evals += 1 + check_run(&r, &faults, i, None, ctx)?;
+            evals += 1 + check_run(&r, w, &faults, i, None, ctx)?;
             if thorough && fault == Fault::Fail {
                 // pairs: a second failure at every later call of *that* run
                 let n1 = r.store.call_count();
                 for j in (i + 1)..n1 {
                     let faults2 = [(i, fault), (j, Fault::Fail)];
                     let r2 = run(&ops, w, &faults2);
-                    evals += 1 + check_run(&r2, &faults2, j, None, ctx)?;
+                    evals += 1 + check_run(&r2, w, &faults2, j, None, ctx)?;
                 }
             }
         }
@@ -689,25 +978,124 @@ fn delta_spec() -> impl Strategy<Value = DeltaSpec> {
     })
 }
 
+fn clock() -> impl Strategy<Value = Clock> {
+    prop_oneof![
+        1 => (0u32..100_000).prop_map(Clock::Production),
+        1 => (0u32..200).prop_map(Clock::Simulated),
+    ]
+}
+
+fn ttl() -> impl Strategy<Value = u64> {
+    prop_oneof![
+        2 => Just(0u64),
+        1 => Just(10),
+        1 => Just(50),
+        1 => Just(3_600_000),
+        1 => Just(u64::MAX / 4),
+    ]
+}
+
+/// `profile` 0 = mixed updates; 1 = delete-heavy on two string keys (so that whole segments end
+/// up all-tombstone and compaction takes its "nothing remains" branch when the cutoff is
+/// past the stamps); 2 = padded values (segments above the size target are skipped).
+fn delta_spec_for(profile: u8) -> BoxedStrategy<DeltaSpec> {
+    match profile {
+        1 => (
+            0u8..2,
+            prop_oneof![3 => Just(Action::Del), 1 => (0u8..6).prop_map(|val| Action::Set { val, pad: 0 })],
+            1u8..4,
+            1u64..30,
+        )
+            .prop_map(|(key, action, replica, time)| DeltaSpec {
+                key,
+                action,
+                replica,
+                time,
+            })
+            .boxed(),
+        2 => (
+            0u8..4,
+            prop_oneof![
+                3 => (0u8..6, 150u16..400).prop_map(|(val, pad)| Action::Set { val, pad }),
+                2 => (0u8..6).prop_map(|val| Action::Set { val, pad: 0 }),
+                1 => Just(Action::Del),
+            ],
+            1u8..4,
+            1u64..30,
+        )
+            .prop_map(|(key, action, replica, time)| DeltaSpec {
+                key,
+                action,
+                replica,
+                time,
+            })
+            .boxed(),
+        _ => delta_spec().boxed(),
+    }
+}
+
 fn workload(max_ops: usize) -> impl Strategy<Value = Workload> {
-    let op = prop_oneof![
-        12 => delta_spec().prop_map(Op::Push),
-        8 => Just(Op::Flush),
-        4 => Just(Op::Compact),
-        1 => Just(Op::Reopen),
-    ];
+    // ops are generated in chunks so that compactions usually find several flushed segments:
+    // "1-3 pushes then a flush" is the common chunk
+    let ops = prop_oneof![3 => Just(0u8), 3 => Just(1u8), 2 => Just(2u8)].prop_flat_map(move |profile| {
+        let batch = (proptest::collection::vec(delta_spec_for(profile), 1..4))
+            .prop_map(|ds| {
+                let mut v: Vec<Op> = ds.into_iter().map(Op::Push).collect();
+                v.push(Op::Flush);
+                v
+            })
+            .boxed();
+        let chunk = prop_oneof![
+            16 => batch.clone(),
+            9 => Just(vec![Op::Compact]),
+            4 => delta_spec_for(profile).prop_map(|d| vec![Op::Push(d)]),
+            2 => Just(vec![Op::Flush]),
+            3 => (proptest::collection::vec(delta_spec_for(profile), 1..4)).prop_map(|ds| {
+                let mut v: Vec<Op> = ds.into_iter().map(Op::Push).collect();
+                v.push(Op::FlushIfDue);
+                v
+            }),
+            1 => Just(vec![Op::FlushIfDue]),
+            2 => Just(vec![Op::CompactIfNeeded]),
+            2 => Just(vec![Op::Checkpoint]),
+            2 => Just(vec![Op::Reopen]),
+        ];
+        // usually two or three flushed batches first, then anything
+        let warmup = prop_oneof![1 => Just(0usize), 3 => Just(2usize), 2 => Just(3usize)]
+            .prop_flat_map({
+                let batch = batch.clone();
+                move |n| proptest::collection::vec(batch.clone(), n..=n)
+            });
+        (warmup, proptest::collection::vec(chunk, 1..9)).prop_map(move |(w, chunks)| {
+            let mut ops: Vec<Op> = w.into_iter().chain(chunks).flatten().collect();
+            ops.truncate(max_ops);
+            ops
+        })
+    });
     (
-        proptest::collection::vec(op, 3..max_ops),
-        prop_oneof![3 => Just(2u8), 1 => Just(3u8)],
+        ops,
+        prop_oneof![1 => Just(1u8), 4 => Just(2u8), 1 => Just(3u8)],
         2u8..6,
         prop_oneof![2 => Just(false), 1 => Just(true)],
+        clock(),
+        ttl(),
+        2u8..5,
+        prop_oneof![1 => Just(200u8), 1 => 1u8..4],
+        prop_oneof![5 => Just(false), 1 => Just(true)],
     )
-        .prop_map(|(ops, min_seg, max_seg, small_target)| Workload {
-            ops,
-            min_seg,
-            max_seg,
-            small_target,
-        })
+        .prop_map(
+            |(ops, min_seg, max_seg, small_target, clock, ttl_ms, max_segments, max_deltas, small_backpressure)| Workload {
+                ops,
+                min_seg,
+                max_seg,
+                small_target,
+                clock,
+                ttl_ms,
+                max_segments,
+                max_deltas,
+                small_backpressure,
+            },
+        )
 }
 
 // ---------------------------------------------------------------------------------------
@@ -729,6 +1117,11 @@ fn plain_workload(ops: Vec<Op>) -> Workload {
         min_seg: 2,
         max_seg: 5,
         small_target: false,
+        clock: Clock::Simulated(0),
+        ttl_ms: 3_600_000,
+        max_segments: 2,
+        max_deltas: 200,
+        small_backpressure: false,
     }
 }
 
@@ -747,7 +1140,7 @@ fn probe_kf01() -> Option<String> {
     // the same pattern in WriteBuffer::flush
     let st = TraceObjectStore::new();
     st.set_faults(&[(0, Fault::Fail)]);
-    let wb = WriteBuffer::new(Arc::new(st.clone()), "wb".to_string(), wb_config());
+    let wb = WriteBuffer::new(Arc::new(st.clone()), "wb".to_string(), wb_config(&w));
     for (k, t) in [(0u8, 1u64), (1, 2)] {
         if let Op::Push(s) = push(k, 1, t) {
             let _ = wb.push(s.build());
@@ -787,8 +1180,10 @@ fn main() {
     let s = Session::new(
         "C12",
         Level::FaultEnumeration,
-        "generated workloads of push/flush/compact/reopen (3..25 ops, weights 12:8:4:1; 4 string + 2 hash keys, 3 replicas, colliding Lamport times; \
-         compaction configs min 2-3 / max 2-5 segments, target size 300 B or 1 MiB). Per workload the fault-free run fixes the store-call sequence; \
+        "generated workloads (up to 25 ops) built from chunks: usually 2-3 warm-up batches '1-3 pushes + flush', then batches, compact, compact_if_needed, flush_if_due, checkpoint (create_checkpoint + Manifest::compact_segments + save), reopen, lone pushes/flushes; \
+         update profiles: mixed (4 string + 2 hash keys, sets/expiries/deletes/hash fields), delete-heavy on two string keys (whole segments end all-tombstone), padded values (segments above the size target); 3 replicas, colliding Lamport times 1..30; \
+         compaction configs min 1-3 / max 2-5 segments per compaction, max_segments 2-4, target size 300 B or 1 MiB, tombstone_ttl in {0, 10, 50 ms, 1 h, practically infinite}, compactor clock production-like (epoch ms) or simulated (0..200 ms); should_flush count threshold 1-3 or 200; backpressure threshold two updates or 16 MiB. \
+         Per workload the fault-free run fixes the store-call sequence (its branches of compact()/flush()/open are labelled in the evidence); \
          then (a) every crash position: the image after each call and inside each put (header/footer/quartile prefixes in quick, every byte prefix in thorough); \
          (b) a restart on every such boundary image (and on a half-written put) that executes the rest of the workload, its boundaries being crash positions again; \
          (c) every single transient failure (each call failing once; puts also failing after a half-written object) with every later call boundary of that run as a crash position; \
@@ -798,7 +1193,8 @@ fn main() {
     );
     s.assume("fault model: a store call completes, or fails with an error (a put possibly after storing a prefix of its payload), or the process dies during it (a put leaves a prefix under its key — also over an existing object; rename and delete are atomic). A put that RETURNS Ok has stored all its bytes: 'short write reported as success' (modelled by the in-tree SimulatedObjectStore) is outside the domain");
     s.assume("injected errors are ErrorKind::Other (as SimulatedObjectStore's); a transient NotFound on the manifest (which load_or_create treats as 'no manifest yet') is not injected");
-    s.assume("tombstone garbage collection is switched off (compactor clock 0 => cutoff 0); it is C13's subject");
+    s.assume("tombstone garbage collection is C13's subject: a confirmed LWW update may be absent from the recovered state iff a compaction had started and a confirmed tombstone of the same key with a stamp >= the update's is droppable by the implementation's rule (stamp.time < compactor_now_ms - ttl_ms); under the simulated clock that is accepted unless a client-visible value of the key came back (then KF-C13-03), under the production-like clock it is counted under KF-C13-02");
+    s.assume("the Checkpoint op snapshots what a node recovered from the current store would hold (computed by the harness on a copy of the image) and covers every segment the manifest lists; each checkpoint object gets its own key (production keys them by wall-clock ms)");
     s.assume("recovered state = fold of RecoveredState as ReplicatedShardedState::apply_recovered_state does it (checkpoint values, then merge per delta in order); containment = merging the update changes nothing in the peer view (vcore::proj, outer stamp's replica id masked)");
     s.assume("updates under one key have one CRDT type and distinct (time, replica) stamps");
     s.assume("Reopen models a process restart without flush: updates still buffered at that moment are not claimed by anything");
@@ -832,7 +1228,7 @@ fn main() {
     );
     s.run_cases(
         "workloads",
-        s.scale(3_000, 60_000),
+        s.scale(2_000, 40_000),
         || workload(if s.thorough() { 24 } else { 26 }),
         check_workload,
     );
